@@ -79,7 +79,6 @@ SigZ(f, A) ==
      [] f = "mpz_rootrem" -> A[4] = "0" \/ (ZIsNeg(A[3]) /\ ~ZTestBit(A[4], 0))
      [] f = "mpz_remove" -> ZLe(A[3], "1")
      [] f = "mpz_invert" -> A[3] = "0"
-     [] f = "mpz_miller_rabin" -> TRUE          \* tiny arguments: see known findings (n = 0)
      [] OTHER -> FALSE
 
 PostZ(f, A, O, r, x) ==
